@@ -394,6 +394,8 @@ int main(int argc, char** argv)
         gen_stats[tag + "_candidates"] = cands.size();
         for (auto& s2 : cands) exprs.push_back({s2.first, tap, s2.second});
     }
+    // deterministic interleaving (order by hash of the text): if a deadline cuts the run, the completed prefix still mixes all fragment kinds
+    std::stable_sort(exprs.begin(), exprs.end(), [](const Expr& x, const Expr& y) { return vx::fnv1a(x.s) < vx::fnv1a(y.s); });
     for (auto& [k, v] : gen_stats) E.set("gen_" + k, v);
     printf("generated %zu valid candidate expressions in %.1fs\n", exprs.size(), vx::elapsed());
 
